@@ -12,7 +12,7 @@ Definition wf_registry (reg : registry) : Prop := wf_named (r_templates reg).
    the partial-block stack, the dev-mode template table *)
 Definition wf_state (s : rstate) : Prop :=
   wf_named (s_partials s) /\
-  Forall wf_template (s_pb_stack s) /\
+  Forall (fun e => wf_template (fst e)) (s_pb_stack s) /\
   match s_dev s with Some dm => wf_named dm | None => True end.
 
 (* the block bodies carried by a helper / decorator value *)
